@@ -205,3 +205,45 @@ func argsOfParam(r *core.Run, v ssa.Value) ([]ssa.Value, bool) {
 	}
 	return out, true
 }
+
+// leafValues: the values v can take, looking through φ-nodes, type changes and — for a parameter of an
+// unexported function — the arguments at every static call site (transitively, bounded). ok is false when a
+// parameter cannot be resolved (exported function, no call sites, depth).
+func leafValues(r *core.Run, v ssa.Value, depth int) ([]ssa.Value, bool) {
+	if depth > 5 {
+		return nil, false
+	}
+	switch x := v.(type) {
+	case *ssa.Phi:
+		var out []ssa.Value
+		for _, e := range x.Edges {
+			l, ok := leafValues(r, e, depth+1)
+			if !ok {
+				return nil, false
+			}
+			out = append(out, l...)
+		}
+		return out, true
+	case *ssa.ChangeType:
+		return leafValues(r, x.X, depth+1)
+	case *ssa.Parameter:
+		fn := x.Parent()
+		if fn.Object() != nil && fn.Object().Exported() {
+			return nil, false
+		}
+		args, ok := argsOfParam(r, x)
+		if !ok {
+			return nil, false
+		}
+		var out []ssa.Value
+		for _, a := range args {
+			l, ok := leafValues(r, a, depth+1)
+			if !ok {
+				return nil, false
+			}
+			out = append(out, l...)
+		}
+		return out, true
+	}
+	return []ssa.Value{v}, true
+}
